@@ -276,6 +276,105 @@ def gen_openlist(rng, tier):
     return out
 
 
+# ----------------------------------------------------------------------------- c18.cursor
+# which of the two variants of GetOpenFileStr the model follows (mirrors ocaml/c18_run.ml fixed_cursor): with the code
+# before fixes/C18-string-cursor.diff the c18.project model (string taken as given) is faithful only where the text
+# search happens to find the string
+FIXED_CURSOR = True
+
+# module names that occur inside the words the old text search ran over (require / dofile / the configured import
+# names / "lua"), and ordinary ones
+INSIDE_NAMES = ["r", "re", "req", "ire", "e", "qui", "u", "ui", "equ", "require", "do", "of", "file", "dofile", "d", "f", "il",
+                "l", "lu", "ua", "a", "lua", "im", "imp", "port", "import", "or", "my", "yim", "myimp", "local", "m0"]
+PLAIN_NAMES = ["m", "mm", "a.b", "d/m", "x/y.z", "a-b", "m_0", "./m", "./d/m", "lib.util", "init", "a..b", "m.lua", "x.lua.lua"]
+REFER_SETS = [["import"], ["import"], ["import", "myimp"], [], ["a.imp"], ["myimp", "import"], ["imp"]]
+
+
+def cursor_expr(rng, refers):
+    """one import expression (mostly one the patterns accept) -> text"""
+    fn = rng.choice(["require"] * 5 + ["dofile"] * 3 + (refers or ["import"]) * 2 + ["loadfile", "print", "xrequire", "dofiles"])
+    name = rng.choice(INSIDE_NAMES) if rng.random() < 0.55 else rng.choice(PLAIN_NAMES)
+    if fn == "dofile" or rng.random() < 0.25:
+        if not name.endswith(".lua") and rng.random() < 0.85:
+            name = name.replace(".", "/") + rng.choice([".lua"] * 6 + ["_lua", ".luaa"])
+    q = rng.choice(['"'] * 5 + ["'"] * 4 + ["|"])
+    q2 = q if rng.random() < 0.9 else rng.choice(['"', "'"])
+    sp1 = rng.choice(["", "", "", " ", "  "])
+    sp2 = rng.choice(["", "", "", " "])
+    paren = rng.random() < 0.75 or fn == "dofile" and rng.random() < 0.9
+    if rng.random() < 0.04:
+        name = rng.choice(["", "a b", "a*b", "é", "a|b", "\\", "a\"b"])
+    return fn + sp1 + ("(" if paren else "") + sp2 + q + name + q2 + sp2 + (")" if paren else "")
+
+
+def gen_cursor(rng, tier):
+    n_lines = {"quick": 260, "thorough": 6000, "search": 120}[tier]
+    out = []
+    for _ in range(n_lines):
+        refers = rng.choice(REFER_SETS)
+        parts = []
+        k = rng.choice([1, 1, 1, 2, 2, 3])
+        x = rng.random()
+        if x < 0.2:
+            parts.append(rng.choice(['local s = "\u00e9\u00e9"; ', "-- \u4e2d\u6587 ", 'print("\u00fc") ', "local t = {'\u00e9'}; "]))
+        elif x < 0.5:
+            parts.append(rng.choice(["local a = ", "local a, b = ", "return ", "x = ", "  ", "\t"]))
+        for i in range(k):
+            e = cursor_expr(rng, refers)
+            if i > 0 and rng.random() < 0.4:
+                e = exprs_prev if rng.random() < 0.7 else e      # the same expression twice on the line
+            exprs_prev = e
+            parts.append(e)
+            if i + 1 < k:
+                parts.append(rng.choice([", ", "; ", " .. ", " ", ""]))
+        if rng.random() < 0.15:
+            parts.append(rng.choice([" -- require(\"m\")", " --", " ; local z = 're'", ".x"]))
+        line = "".join(parts)
+        if rng.random() < 0.03:
+            line = rng.choice(["", '"', "require", 'require("', "require()"])
+        nl = rng.choice(["\n", "\n", "\r\n", "\r"])
+        pre = rng.choice(["", "", "local x = 1" + nl, 'require("zz")' + nl + nl, "--" + nl])
+        post = rng.choice(["", "", nl, nl + 'dofile("q.lua")', nl + nl])
+        if not (pre + line + post):
+            continue
+        lb = line.encode("utf-8")
+        # every character position of the line (BMP only: one UTF-16 unit per character), plus the end of the line
+        cols, b = [], 0
+        for ch_i, c in enumerate(line):
+            cols.append((b, ch_i))
+            b += len(c.encode("utf-8"))
+        cols.append((b, len(line)))
+        if tier != "thorough" and len(cols) > 30:
+            # all columns inside and next to quoted strings, a sample of the others
+            keep = set()
+            for i, c in enumerate(line):
+                if c in "\"'|":
+                    keep.update(range(max(0, i - 1), min(len(cols), i + 3)))
+            inq, acc = False, set()
+            for i, c in enumerate(line):
+                if c in "\"'":
+                    inq = not inq
+                if inq:
+                    acc.add(i)
+            keep |= acc
+            keep |= set(rng.sample(range(len(cols)), 6))
+            cols = [cols[i] for i in sorted(keep) if i < len(cols)]
+        rh = ",".join(hx(r) for r in refers) or "-"
+        for (bc, cc) in cols:
+            out.append("%s %s %s %d %d %s" % (hx(pre.encode("utf-8")) or "-", hx(lb) or "-", hx(post.encode("utf-8")) or "-", bc, cc, rh))
+    return out
+
+
+def cursor_describe(c):
+    try:
+        f = c.split(" ")
+        dec = lambda h: "" if h == "-" else bytes.fromhex(h).decode("utf-8", "replace")
+        return "line=%r byte column=%s character=%s pre=%r post=%r import names=%s" % (
+            dec(f[1]), f[3], f[4], dec(f[0]), dec(f[2]), [dec(x) for x in f[5].split(",")] if f[5] != "-" else [])
+    except Exception:
+        return c[:200]
+
+
 # ----------------------------------------------------------------------------- c18.project
 def extractable(kind, s):
     """the module string is one the regular expressions of GetOpenFileStr extract at the cursor (oracle boundary)"""
@@ -283,12 +382,19 @@ def extractable(kind, s):
         return False
     if kind == "d":
         return s.endswith(".lua") and re.fullmatch(r"[0-9a-zA-Z_/\-]+", s[:-4]) is not None
-    return ('require("' + s + '")').find(s) == 9
+    # before fixes/C18-string-cursor.diff the string was searched for by its text from the start of the expression
+    return FIXED_CURSOR or ('require("' + s + '")').find(s) == 9
 
 
 def gen_project(rng, tier):
     n = {"quick": 2500, "thorough": 50000, "search": 400}[tier]
     out = []
+    # calcMatchStrScore measures from the occurrence of "/" + name (fixes/C18-score-position.diff): the extreme tree in
+    # which the analysis and definition chose different files for the module "a" (found inside ".lua" by the text
+    # search): main.lua in a directory NAMED a.lu, 100 directories deep, next to a.lua; another a.lua 99 deep
+    deep_d, deep_c = "/".join(["d"] * 100), "/".join(["c"] * 99)
+    out.append("%s %s %s %s -" % (hx(new_root(rng)), "L" + hx(deep_d + "/a.lua") + ",L" + hx(deep_c + "/a.lua"),
+                                  hx(deep_d + "/a.lu/main.lua"), "r" + hx("a")))
     while len(out) < n:
         # the directory scan only takes *.lua files: everything else on disk is not part of the workspace
         files = {f: (k if f.endswith(".lua") else "D") for f, k in gen_tree(rng, rng.random() < 0.2).items() if k in "LD"}
@@ -299,12 +405,23 @@ def gen_project(rng, tier):
         if cur in files or any(o.startswith(cur + "/") or cur.startswith(o + "/") for o in files):
             continue
         refs = []
+        if FIXED_CURSOR and rng.random() < 0.25:
+            # a module whose name occurs inside the word `require` / in the line before the string
+            nm = rng.choice(["re", "u", "e", "ire", "qui", "r", "m0", "local"])
+            f = rng.choice(DIRS + [""] * 3)
+            f = (f + "/" if f else "") + nm + rng.choice([".lua", ".lua", "/init.lua"])
+            if f != cur and not any(o == f or o.startswith(f + "/") or f.startswith(o + "/") for o in list(files) + [cur]):
+                files[f] = "L"
+                lua.append(f)
+                refs.append(rng.choice("rq") + hx(nm))
         for _ in range(rng.randrange(1, 4)):
             kind = rng.choice("rrrd")
             s_ = module_strings(rng, files, False)
             if kind == "d":
                 s_ = s_.replace(".lua", "").replace(".", "/") + ".lua"
             if extractable(kind, s_) and "//" not in s_ and not s_.startswith("/"):
+                if FIXED_CURSOR and rng.random() < 0.3:
+                    kind = {"r": "q", "d": "D"}[kind]        # single quotes: require 's' / dofile('s')
                 refs.append(kind + hx(s_))
         if not refs:
             continue
@@ -324,7 +441,7 @@ def gen_project(rng, tier):
                 r = rng.choice(refs)
                 stem = bytes.fromhex(r[1:]).decode("latin1")
                 stem = stem[2:] if stem.startswith("./") else stem
-                stem = (stem[:-4] if r[0] == "d" else stem.replace(".", "/"))
+                stem = (stem[:-4] if r[0] in "dD" else stem.replace(".", "/"))
                 y = rng.random()
                 if y < 0.35:
                     f = stem + ".lua"
@@ -381,15 +498,17 @@ LEGS = [
         deciding=False, nontrivial=index_nontrivial),
     Leg("c18.resolve", gen_resolve, shrink=shrink_resolve, per_case_s=0.2, describe=resolve_describe),
     Leg("c18.openlist", gen_openlist),
+    Leg("c18.cursor", gen_cursor, oracle="c18.cursor_rx", describe=cursor_describe,
+        nontrivial=lambda c: c.split(" ")[6].count(".") > 0),
     Leg("c18.project", gen_project, shrink=shrink_project, per_case_s=1.0, describe=project_describe,
         nontrivial=lambda c: c.split(" ")[4] != "-"),
 ]
 LEGS[2].set_valued = True
-LEGS[4].set_valued = True
+LEGS[5].set_valued = True
 
 TRUSTED = vlib.TRUSTED_COMMON + [
     "oracle: the file system (filefolder.IsFileExist behind FileExistCache) = Section variable disk; the OCaml driver's path normalisation stands for the OS",
-    "oracle: the regular-expression extraction of the module string under the cursor in stringutil.GetOpenFileStr (its tail, the candidate list, is modelled: open_list)",
+    "oracle: Go's regular-expression engine on the line under the cursor (stringutil.GetOpenFileStr: WHERE the import expressions and their quoted literals match - harness leg c18.cursor_rx); modelled on top of it: which literal holds the cursor (cursor_pick), the candidate list (open_list)",
     "modelled, tied by correspondence: common.FileIndexInfo (Insert/Remove/lookups) with common.LuaSuffixIndex / CompleteFilePathToPreStr, calcMatchStrScore, GetBestMatchReferFile / GetBestMatchSuffixFile (the best-scored candidate with the least path), FileResult.CheckReferFile, ReanalyseReferInfo on create/delete events, the tail of stringutil.GetOpenFileStr, FindOpenFileDefine; the variants before each repair are kept in Coq under one boolean per repair (ocaml/c18_run.ml fixed_*)",
     "assumed configuration shape: one workspace root, no sub-directories / client ext path, first analysis pass; no file-type associations (every workspace file ends in .lua: guard all_lua of the resolution theorems; a workspace with another indexed file type is run but makes no demand, class non_lua_file)",
 ]
@@ -404,5 +523,5 @@ def main(tier, seed):
         for leg in LEGS:
             r.run_leg(leg)
     return r.finish(LEGS, trusted=TRUSTED, assumptions=[
-        "hover/definition: the module string under the cursor is taken as given (regex extraction is an oracle)",
+        "hover/definition: the places where the import expressions match on the line are an oracle (Go regexp); which string the cursor is in, and everything after, is modelled",
         "ties between equally scored candidates are allowed by C18 (any documented match conforms); since fixes/C09-deterministic-order.diff the code resolves them by the path (C09_best_match_perm_full) and the model predicts that single answer"])
